@@ -8,16 +8,22 @@ present fingerprint ran every command successfully, and the generates exist.  At
 recorded in the ghost log `State.log` by `runBody` (one entry each time the command loop is
 entered; `ok` iff every command ran and succeeded).
 
-* `C04_full` — for every history, "up to date" implies `goodRun`.  **False** in (at least)
-  five independent ways, each a `decide`-checked run of the executable model:
-  `C04_counterexample_prompt` (3), `_kill` (4), `_timestamp_fail` (5), `_listjson` (6, for the
-  wiring as found — repaired by F7), `_collision` (7); and a sixth found while building this
-  check, `_timestamp_generates`.
+* `C04_full` — for every history, "up to date" implies `goodRun`.  **False** in several
+  independent ways, each a `decide`-checked run of the executable model:
+  `C04_counterexample_kill` (4), `_timestamp_fail` (5), `_listjson` (6, for the wiring as found —
+  repaired by F7), `_collision` (7), `_prompt_timestamp` (3, what is left of it: method timestamp
+  only), and `_timestamp_generates`, `_timestamp_never_ran`, `_timestamp_marker_moves` found while
+  building this check.
+* (3) for method checksum is REPAIRED (F31: a declined prompt goes through `statusOnError`):
+  `C04_prompt_declined_no_entry` (the declined run leaves no checksum entry for the task and logs
+  no attempt), `C04_prompt_declined_next_runs` (so the next run is not skipped),
+  `C04_prompt_declined_fixed` (the former witness is no longer bad).
 * `C04_partial` — method checksum, pairwise distinct normalised names, histories of ANY length
-  made of arbitrary file operations, successful runs, runs failing inside the command loop,
-  `--force`, `--dry`, `--status`, `--list[-all] [--json]`, `--summary` (no declined prompt, no
-  kill): skip ⇒ goodRun.  Invariant: "stored checksum for `t` = h ⇒ the last attempt at `t` with
-  fingerprint h succeeded"; induction over the list of steps.
+  made of arbitrary file operations, successful runs, runs failing inside the command loop, runs
+  and `--force` runs CANCELLED AT THE PROMPT, `--force`, `--dry`, `--status`,
+  `--list[-all] [--json]`, `--summary` (no kill): skip ⇒ goodRun.  Invariant: "stored checksum
+  for `t` = h ⇒ the last attempt at `t` with fingerprint h succeeded"; induction over the list of
+  steps.
 The hash `H` is arbitrary throughout (fingerprints are compared, never inverted).
 -/
 namespace Props.C04
@@ -35,7 +41,7 @@ def C04_full (cfg : Cfg) : Prop :=
 private def mk (name : Bytes) (m : Method) (prompt : Bool) (ncmds : Nat) : Task :=
   { name, label := [], method := m, sources := [⟨false, [0]⟩], generates := [], status := [],
     prompt, dir := none, cmds := List.replicate ncmds ⟨[]⟩ }
-private def pj (ts : List Task) : Proj := { base := [(0, [97])], dirOf := [], tasks := ts }
+private def pj (ts : List Task) : Proj := { base := [(0, [97])], dirOf := [], dirLen := [], tasks := ts }
 private def w0 : Step := .op (.write 0 [1] 5)
 private def env (n : Nat) : Env := ⟨n, true, none, none⟩
 private def run (i n : Nat) : Step := .inv i .run (env n)
@@ -49,11 +55,19 @@ def Bad (cfg : Cfg) (pr : Proj) (hist : List Step) (i : Nat) (t : Task) : Prop :
 instance (cfg : Cfg) (pr : Proj) (hist : List Step) (i : Nat) (t : Task) : Decidable (Bad cfg pr hist i t) := by
   unfold Bad; infer_instance
 
-/-- (3) the prompt is declined AFTER the fingerprint was written: the next run is skipped,
-the commands never ran. -/
-theorem C04_counterexample_prompt :
-    Bad Cfg.fixed (pj [mk [120] .checksum true 1]) [w0, .inv 0 .run { env 10 with yes := false }] 0
+/-- (3, method checksum — REPAIRED by F31) the prompt is declined after the fingerprint was
+written; `statusOnError` removes it again, so this history is no longer bad (the general
+statements are `C04_prompt_declined_no_entry` / `_next_runs` and `C04_partial` below). -/
+theorem C04_prompt_declined_fixed :
+    ¬ Bad Cfg.fixed (pj [mk [120] .checksum true 1]) [w0, .inv 0 .run { env 10 with yes := false }] 0
       (mk [120] .checksum true 1) := by decide
+
+/-- (3, method timestamp — still open) the marker is created DURING the check and
+`TimestampChecker.OnError` does nothing: after a declined prompt the next run is skipped, the
+commands never ran (same root as 5). -/
+theorem C04_counterexample_prompt_timestamp :
+    Bad Cfg.fixed (pj [mk [120] .timestamp true 1]) [w0, .inv 0 .run { env 10 with yes := false }] 0
+      (mk [120] .timestamp true 1) := by decide
 
 /-- (4) the process is killed between the check and the last command. -/
 theorem C04_counterexample_kill :
@@ -99,7 +113,7 @@ theorem C04_counterexample_timestamp_marker_moves :
 
 theorem C04_full_false : ¬ C04_full Cfg.fixed := by
   intro h
-  have hb := C04_counterexample_prompt
+  have hb := C04_counterexample_kill
   have := h id _ _ 0 _ (env 99) hb.1 hb.2.1 hb.2.2.1
   rw [hb.2.2.2] at this
   cases this
@@ -113,12 +127,11 @@ variable (H : Bytes → Bytes) (pr : Proj)
 def KeysDistinct (pr : Proj) : Prop :=
   ∀ (i j : Nat) (ti tj : Task), pr.tasks[i]? = some ti → pr.tasks[j]? = some tj → sumKey ti = sumKey tj → i = j
 
-/-- steps of the histories covered: any file operation; any invocation that is not killed and
-whose prompt (for `run` / `--force`) is answered yes -/
-def Allowed (pr : Proj) : Step → Prop
+/-- steps of the histories covered: any file operation; any invocation (every mode, prompt
+answered yes or declined, any command failing) during which the process is not killed -/
+def Allowed : Step → Prop
   | .op _ => True
-  | .inv j m e => e.killAt = none ∧
-      ((m = .run ∨ m = .force) → ∀ t, pr.tasks[j]? = some t → t.prompt = false ∨ e.yes = true)
+  | .inv _ _ e => e.killAt = none
 
 /-- the invariant: a stored checksum `h` of a checksum task means the last attempt at that task
 with fingerprint `h` succeeded -/
@@ -160,8 +173,25 @@ theorem inv_of_effect (hd : KeysDistinct pr) {s s' : State} (hinv : Inv pr s) {j
     rw [hother _ hne] at hget
     exact hinv i t h hti hcs hget
 
+/-- an invocation of task `j` that logs no attempt and leaves no checksum entry for it (a run
+cancelled at the prompt) keeps `Inv` -/
+theorem inv_of_cancel (hd : KeysDistinct pr) {s s' : State} (hinv : Inv pr s) {j : Nat} {tj : Task}
+    (htj : pr.tasks[j]? = some tj) (hlog : s'.log = s.log)
+    (hother : ∀ x, (Cs tj → x ≠ sumKey tj) → aget s'.sums x = aget s.sums x)
+    (hkey : Cs tj → aget s'.sums (sumKey tj) = none) : Inv pr s' := by
+  intro i t h hti hcs hget
+  rw [hlog]
+  by_cases hij : i = j
+  · subst hij
+    have htt : t = tj := by rw [hti] at htj; exact Option.some.inj htj
+    subst htt
+    rw [hkey hcs] at hget; cases hget
+  · have hne : Cs tj → sumKey t ≠ sumKey tj := fun _ e => hij (hd i j t tj hti htj e)
+    rw [hother _ hne] at hget
+    exact hinv i t h hti hcs hget
+
 /-- every allowed step keeps the invariant -/
-theorem inv_step (hd : KeysDistinct pr) (st : Step) (s : State) (ha : Allowed pr st) (hinv : Inv pr s) :
+theorem inv_step (hd : KeysDistinct pr) (st : Step) (s : State) (ha : Allowed st) (hinv : Inv pr s) :
     Inv pr (step Cfg.fixed H pr st s).1 := by
   cases st with
   | op o =>
@@ -172,7 +202,7 @@ theorem inv_step (hd : KeysDistinct pr) (st : Step) (s : State) (ha : Allowed pr
     rw [hf.2]
     exact hinv i t h hti hcs hget
   | inv j m e =>
-    obtain ⟨hk, hprompt⟩ := ha
+    have hk : e.killAt = none := ha
     simp only [step]
     by_cases hro : m.readOnly = true
     · rw [(invoke_readOnly Cfg.fixed H pr rfl rfl j m e s hro).1]; exact hinv
@@ -182,9 +212,44 @@ theorem inv_step (hd : KeysDistinct pr) (st : Step) (s : State) (ha : Allowed pr
           cases m <;> simp [Mode.readOnly] at hro <;> simp [invoke, htj]
         rw [this]; exact hinv
       | some tj =>
-        have hpass : Passes tj e := by
-          refine ⟨hprompt ?_ tj htj, hk⟩
-          cases m <;> simp [Mode.readOnly] at hro <;> simp
+        by_cases hdec : Declined tj e
+        · -- cancelled at the prompt: `statusOnError`, no attempt
+          cases m with
+          | force =>
+            rw [invoke_force Cfg.fixed H pr htj, runBody_declined Cfg.fixed H pr j tj e s hdec]
+            apply inv_of_cancel pr hd hinv htj (onError_log tj s)
+            · intro x hx
+              rw [onError_sums]
+              by_cases hcs : Cs tj
+              · rw [if_pos hcs, aget_adel_ne _ (fun e => hx hcs e.symm)]
+              · rw [if_neg hcs]
+            · intro hcs
+              rw [onError_sums, if_pos hcs]; simp
+          | run =>
+            rw [invoke_run Cfg.fixed H pr htj]
+            obtain ⟨hclog, _, hcother, _, hcskip⟩ := isUpToDate_effect H pr tj e.now s
+            split
+            · rename_i hup
+              intro i t h hti hcs hget
+              simp only at hget ⊢
+              rw [hcskip hup] at hget
+              rw [hclog]
+              exact hinv i t h hti hcs hget
+            · rw [runBody_declined Cfg.fixed H pr j tj e _ hdec]
+              apply inv_of_cancel pr hd hinv htj (by rw [onError_log, hclog])
+              · intro x hx
+                rw [onError_sums]
+                by_cases hcs : Cs tj
+                · rw [if_pos hcs, aget_adel_ne _ (fun e => hx hcs e.symm)]; exact hcother x hx
+                · rw [if_neg hcs]; exact hcother x hx
+              · intro hcs
+                rw [onError_sums, if_pos hcs]; simp
+          | dry => simp [Mode.readOnly] at hro
+          | status => simp [Mode.readOnly] at hro
+          | listJson => simp [Mode.readOnly] at hro
+          | list => simp [Mode.readOnly] at hro
+          | summary => simp [Mode.readOnly] at hro
+        have hpass : Passes tj e := passes_of_not_declined hk hdec
         cases m with
         | force =>
           rw [invoke_force Cfg.fixed H pr htj]
@@ -235,7 +300,7 @@ theorem inv_step (hd : KeysDistinct pr) (st : Step) (s : State) (ha : Allowed pr
         | summary => simp [Mode.readOnly] at hro
 
 /-- … hence every allowed history does -/
-theorem inv_hist (hd : KeysDistinct pr) (hist : List Step) (s : State) (ha : ∀ st ∈ hist, Allowed pr st)
+theorem inv_hist (hd : KeysDistinct pr) (hist : List Step) (s : State) (ha : ∀ st ∈ hist, Allowed st)
     (hinv : Inv pr s) : Inv pr (runHist Cfg.fixed H pr hist s).1 := by
   induction hist generalizing s with
   | nil => exact hinv
@@ -244,9 +309,10 @@ theorem inv_hist (hd : KeysDistinct pr) (hist : List Step) (s : State) (ha : ∀
     exact ih _ (fun x hx => ha x (by simp [hx])) (inv_step H pr hd st s (ha st (by simp)) hinv)
 
 /-- **C04_partial**: for a task fingerprinted with method checksum, in a project whose tasks have
-pairwise distinct normalised names, after ANY history of allowed steps (no bound on its length):
-if a run reports the task up to date then `goodRun` holds. -/
-theorem C04_partial (hd : KeysDistinct pr) (hist : List Step) (ha : ∀ st ∈ hist, Allowed pr st)
+pairwise distinct normalised names, after ANY history of allowed steps (no bound on its length;
+since F31 this includes runs cancelled at the prompt): if a run reports the task up to date then
+`goodRun` holds. -/
+theorem C04_partial (hd : KeysDistinct pr) (hist : List Step) (ha : ∀ st ∈ hist, Allowed st)
     (i : Nat) (t : Task) (e : Env) (ht : pr.tasks[i]? = some t) (hm : t.method = .checksum)
     (hsrc : t.sources.isEmpty = false)
     (hskip : (invoke Cfg.fixed H pr i .run e (runHist Cfg.fixed H pr hist State.empty).1).2.skipped = true) :
@@ -264,25 +330,69 @@ theorem C04_partial (hd : KeysDistinct pr) (hist : List Step) (ha : ∀ st ∈ h
   unfold goodRun
   simp only [hm, hsum.1, ha1, ha2, Bool.and_self]
 
+/-! ## The declined prompt (F31) -/
+
+/-- **a declined prompt leaves no checksum entry**: a run of a checksum task that is not up to
+date and is cancelled at the prompt exits `cancelled`, starts no command, logs no attempt, and
+the checksum the check had recorded is gone again (any wiring, any state, any hash). -/
+theorem C04_prompt_declined_no_entry (cfg : Cfg) {i : Nat} {t : Task} (ht : pr.tasks[i]? = some t) (hcs : Cs t)
+    (e : Env) (s : State) (hdec : Declined t e) (hns : (invoke cfg H pr i .run e s).2.skipped = false) :
+    aget (invoke cfg H pr i .run e s).1.sums (sumKey t) = none ∧
+    (invoke cfg H pr i .run e s).2.exit = .cancelled ∧ (invoke cfg H pr i .run e s).2.ran = [] ∧
+    (invoke cfg H pr i .run e s).1.log = s.log := by
+  rw [invoke_run cfg H pr ht] at hns ⊢
+  by_cases hup : (isUpToDate H pr t false e.now s).2 = true
+  · rw [if_pos hup] at hns; cases hns
+  · rw [if_neg hup, runBody_declined cfg H pr i t e _ hdec]
+    refine ⟨?_, rfl, rfl, ?_⟩
+    · simp only [onError_sums, if_pos hcs]; simp
+    · simp only [onError_log]; exact (isUpToDate_effect H pr t e.now s).1
+
+/-- … so **the next run is not skipped** on account of the cancelled one. -/
+theorem C04_prompt_declined_next_runs (cfg : Cfg) {i : Nat} {t : Task} (ht : pr.tasks[i]? = some t) (hcs : Cs t)
+    (e e2 : Env) (s : State) (hdec : Declined t e) (hns : (invoke cfg H pr i .run e s).2.skipped = false) :
+    (invoke cfg H pr i .run e2 (invoke cfg H pr i .run e s).1).2.skipped = false := by
+  have hnone := (C04_prompt_declined_no_entry H pr cfg ht hcs e s hdec hns).1
+  generalize (invoke cfg H pr i .run e s).1 = s1 at hnone
+  cases hsk : (invoke cfg H pr i .run e2 s1).2.skipped with
+  | false => rfl
+  | true =>
+    have hup := run_skipped cfg H pr ht e2 s1 hsk
+    rw [isUpToDate_sources H pr hcs.2] at hup
+    have hsum : (sumCheck H pr t false s1).2 = true := by
+      simp only [srcCheck, hcs.1] at hup
+      cases hst : t.status.isEmpty <;> simp [hst] at hup <;> simp [hup]
+    rw [sumCheck_result, hnone] at hsum
+    simp at hsum
+
 end
 
 /-- non-vacuity: a history using every allowed kind of step (edit, successful run, failing run,
-`--force`, `--dry`, `--status`, `--list --json`) on a project with distinct names, after which
-the task IS skipped — and, as the theorem says, `goodRun` holds. -/
+run cancelled at the prompt, `--force`, `--dry`, `--status`, `--list --json`) on a project with
+distinct names, after which the task IS skipped — and, as the theorem says, `goodRun` holds. -/
 example :
     let t := mk [120] .checksum false 2
-    let pr := pj [t, mk [121] .checksum false 1]
+    let pr := pj [t, mk [121] .checksum true 1]
     let hist : List Step := [w0, .inv 0 .run { env 10 with failAt := some 1 }, .inv 0 .dry (env 20), .inv 0 .status (env 30),
-      .inv 0 .listJson (env 40), run 0 50, .inv 1 .force (env 60), .op (.touch 0 70)]
-    (∀ st ∈ hist, Allowed pr st) ∧
+      .inv 0 .listJson (env 40), .inv 1 .run { env 45 with yes := false }, run 0 50, .inv 1 .force (env 60), .op (.touch 0 70)]
+    (∀ st ∈ hist, Allowed st) ∧
     (invoke Cfg.fixed id pr 0 .run (env 99) (runHist Cfg.fixed id pr hist State.empty).1).2.skipped = true ∧
     goodRun id pr 0 t (runHist Cfg.fixed id pr hist State.empty).1 = true := by
   refine ⟨?_, by decide, by decide⟩
   intro st hst
   simp only [List.mem_cons, List.not_mem_nil, or_false] at hst
-  rcases hst with h | h | h | h | h | h | h | h <;> subst h <;> simp [Allowed, w0, run, env, mk, pj]
+  rcases hst with h | h | h | h | h | h | h | h | h <;> subst h <;> simp [Allowed, w0, run, env]
 
-example : KeysDistinct (pj [mk [120] .checksum false 2, mk [121] .checksum false 1]) := by
+/-- non-vacuity of the declined-prompt theorems: the run is really cancelled after the check wrote
+the checksum (it is not up to date), and the task of the example is a checksum task with a prompt -/
+example :
+    let t := mk [120] .checksum true 1
+    let e : Env := { env 10 with yes := false }
+    let s := (runHist Cfg.fixed id (pj [t]) [w0] State.empty).1
+    Cs t ∧ Declined t e ∧ (invoke Cfg.fixed id (pj [t]) 0 .run e s).2.skipped = false ∧
+    (isUpToDate id (pj [t]) t false 10 s).1.sums ≠ [] ∧ (invoke Cfg.fixed id (pj [t]) 0 .run e s).1.sums = [] := by decide
+
+example : KeysDistinct (pj [mk [120] .checksum false 2, mk [121] .checksum true 1]) := by
   intro i j ti tj hi hj hk
   match i, j with
   | 0, 0 => rfl
